@@ -310,7 +310,7 @@ func freeBinding(x *ssa.FreeVar) ssa.Value {
 	n := 0
 	for _, b := range par.Blocks {
 		for _, in := range b.Instrs {
-			if mc, ok := in.(*ssa.MakeClosure); ok && mc.Fn == fn {
+			if mc, ok := in.(*ssa.MakeClosure); ok && (mc.Fn == fn || origFn(mc.Fn.(*ssa.Function)) == origFn(fn) && par == fn.Parent()) {
 				found = mc.Bindings[idx]
 				n++
 			}
